@@ -333,6 +333,12 @@ func execC04Once(e *env, c *Case, handler string) (o outcome) {
 		return
 	}
 	if derr != nil || !proto.Equal(got, want) {
+		for _, magic := range []string{altJSONMagic, altProtoMagic} {
+			if markOf(e.kind, ct) != magic && strings.HasPrefix(string(payload), magic) {
+				o.add("c04:foreign-codec-output:"+strings.TrimPrefix(ct, "application/"), fmt.Sprintf("%s: the body under Content-Type %q starts with the mark %q of a codec this mux never registered for that type (it was registered with CodecOption on ANOTHER mux of the process)", ctx, ct, magic))
+				return
+			}
+		}
 		if hiddenGzip() {
 			o.add("c04:content-encoding:gzip-bytes-without-header", ctx+": the body is gzip-compressed but Content-Encoding is "+fmt.Sprintf("%q", ce))
 			return
@@ -471,6 +477,19 @@ func replyRules() (dynamic, real []RuleSpec) {
 		rule("c4:rb-get-httpbody", "vf.Rsp", "GET", "/c4/rb5/{a}", "", "body"),
 		rule("c4:rb-post-star-sub", "vf.Rsp", "POST", "/c4/rb6", "*", "sub"),
 	}
+	// rules delivered through ServiceConfigOption: routes of their own and
+	// re-declarations of the annotated route with another body / response_body
+	cfg := func(id, verb, tmpl, body, resp string, ann *annSpec) RuleSpec {
+		return RuleSpec{ID: id, In: "vf.Req", Out: "vf.Rsp", Verb: verb, Tmpl: tmpl, Body: body, Resp: resp, Via: "config", Ann: ann}
+	}
+	dynamic = append(dynamic,
+		cfg("c4:cfg-own-route-resp-echo", "GET", "/c4/k1/{a}", "", "echo", nil),
+		cfg("c4:cfg-own-route-whole", "POST", "/c4/k2", "*", "", &annSpec{Verb: "GET", Tmpl: "/c4/k2ann/{a}", Resp: "sub"}),
+		cfg("c4:cfg-adds-resp-to-annotated-route", "POST", "/c4/k3", "*", "echo", &annSpec{Body: "*"}),
+		cfg("c4:cfg-changes-resp-of-annotated-route", "GET", "/c4/k4/{a}", "", "sub", &annSpec{Resp: "echo"}),
+		cfg("c4:cfg-drops-resp-of-annotated-route", "GET", "/c4/k5/{a}", "", "", &annSpec{Resp: "echo"}),
+		cfg("c4:cfg-changes-body-and-resp", "POST", "/c4/k6", "sub", "body", &annSpec{Body: "*"}),
+	)
 	rsp := "larking.testpb."
 	real = []RuleSpec{
 		pbRule("Messaging", "GetShelf", "GetShelfRequest", rsp+"Shelf", "GET", "/v1/{name=shelves/*}", ""),
@@ -634,7 +653,7 @@ func (g *gen) c04Case(p *plan, kind, reqCT string, accept, acceptEnc []string) (
 			if enc.gzip {
 				q.Body = wire.Gzip(q.Body)
 			}
-		} else if q.Body, err = enc.encode(bodyMsg); err != nil {
+		} else if q.Body, err = enc.encodeFor(kind, bodyMsg); err != nil {
 			return nil, err
 		}
 		if enc.gzip {
@@ -668,7 +687,7 @@ func (g *gen) c04Case(p *plan, kind, reqCT string, accept, acceptEnc []string) (
 		Reply: wireR, ReplyJSON: jsonOf(reply)}, nil
 }
 
-const ruleC04 = "unary rules returning vf.Req, larking.testpb.ComplexRequest (maps, Struct, Any, every scalar), vf.Rsp, google.api.HttpBody and real larking.testpb methods (GetShelf, GetBook, UpdateBook, GetMessageOne, Files.UploadDownload, WellKnown.Check); with and without response_body (top-level message fields incl. an HttpBody field; body '', '*' and <field>). The recording handler returns a planted reply (generator of C03: boundary / random values, empty, ~160 KiB, HttpBody with content types incl. parameters and arbitrary bytes up to 64 KiB). Requests: Content-Type absent / application/json / application/protobuf / application/octet-stream (optionally gzip bodies), Accept headers = a fixed table (single types, wildcards, q=0 exclusions, all-excluded, junk tokens, google.api.HttpBody, duplicated headers) x all request types, plus random headers (1-4 ranges, exact / type/* / */*, q in {absent,0,0.000,0.001,0.1,0.5,0.9,1,1.000}, OWS variants, junk elements, split over two header lines), Accept-Encoding values. Two further dimensions: (1) the handler touches the response metadata before returning (every 2nd case: grpc.SetHeader, grpc.SendHeader = headers sent early, SendHeader(nil), SetHeader+SendHeader, SetTrailer) - a failure that disappears with a plain handler is keyed handler=<mode>; (2) every rule also lives on a mux with two extra media types registered through larking.CodecOption (application/x-vf-json, application/x-vf-proto; magic-prefixed so the decoder can tell the named codec produced the body): there the registered universe has five types, request bodies / Content-Types and Accept headers name the extra types (fixed table of 10 headers x all six request types, the general fixed table with rotating request types, a third of the random headers). Oracles: independent decode by the response Content-Type (protojson / proto.Unmarshal / the harness decoders of the extra codecs) and proto.Equal with the reply or its response_body field; HttpBody: body == data and Content-Type == content_type; Content-Encoding gzip must gunzip to the payload, absent / identity means the body is the payload; RFC 7231 5.3.2 evaluator (most specific range wins, q=0 excludes), applied only when the header parses under the evaluated grammar: if a registered type is admitted the response type must be admitted, if none is the response type must be the request's own (JSON when absent). distinct = (rule, response codec, request type, Accept class, admission verdict, response Content-Encoding). Stateful part: sequences of 16-40 requests on one mux against an asset-server handler that owns long-lived buffers (1 B - 40 KB) and long-lived reply messages and serves them repeatedly without copying (fresh HttpBody / vf.Rsp per call whose data / bytes field aliases the buffer; the same long-lived vf.Rsp whose response_body-selected HttpBody or vf.Req sub-message holds it), interleaved with other transcoded requests with request bodies and replies of 0 B - 60 KB in all codecs; every reply is checked against an expectation built from an independent pristine copy, after every step every handler-owned buffer must still equal its pristine copy (canary) and at the end every long-lived reply message must equal a freshly built one; distinct there = (asset shape, codec) of assets served again intact after other traffic"
+const ruleC04 = "unary rules returning vf.Req, larking.testpb.ComplexRequest (maps, Struct, Any, every scalar), vf.Rsp, google.api.HttpBody and real larking.testpb methods (GetShelf, GetBook, UpdateBook, GetMessageOne, Files.UploadDownload, WellKnown.Check); with and without response_body (top-level message fields incl. an HttpBody field; body '', '*' and <field>). The recording handler returns a planted reply (generator of C03: boundary / random values, empty, ~160 KiB, HttpBody with content types incl. parameters and arbitrary bytes up to 64 KiB). Requests: Content-Type absent / application/json / application/protobuf / application/octet-stream (optionally gzip bodies), Accept headers = a fixed table (single types, wildcards, q=0 exclusions, all-excluded, junk tokens, google.api.HttpBody, duplicated headers) x all request types, plus random headers (1-4 ranges, exact / type/* / */*, q in {absent,0,0.000,0.001,0.1,0.5,0.9,1,1.000}, OWS variants, junk elements, split over two header lines), Accept-Encoding values. Two further dimensions: (1) the handler touches the response metadata before returning (every 2nd case: grpc.SetHeader, grpc.SendHeader = headers sent early, SendHeader(nil), SetHeader+SendHeader, SetTrailer) - a failure that disappears with a plain handler is keyed handler=<mode>; (2) every rule also lives on a mux with two extra media types registered through larking.CodecOption (application/x-vf-json, application/x-vf-proto; magic-prefixed so the decoder can tell the named codec produced the body): there the registered universe has five types, request bodies / Content-Types and Accept headers name the extra types (fixed table of 10 headers x all six request types, the general fixed table with rotating request types, a third of the random headers). (3) a third mux REPLACES application/json and application/protobuf by the marked codecs, and a second plain mux is built after the option muxes: the plain muxes (built before and after) must answer in the built-in codecs, never carry a mark, and fall back for headers naming the extra types; (4) rules delivered through ServiceConfigOption (selector = method): on routes of their own and re-declaring the annotated route of the method with another body / response_body (the service configuration wins). Oracles: independent decode by the response Content-Type (protojson / proto.Unmarshal / the harness decoders of the extra codecs) and proto.Equal with the reply or its response_body field; HttpBody: body == data and Content-Type == content_type; Content-Encoding gzip must gunzip to the payload, absent / identity means the body is the payload; RFC 7231 5.3.2 evaluator (most specific range wins, q=0 excludes), applied only when the header parses under the evaluated grammar: if a registered type is admitted the response type must be admitted, if none is the response type must be the request's own (JSON when absent). distinct = (rule, response codec, request type, Accept class, admission verdict, response Content-Encoding). Stateful part: sequences of 16-40 requests on one mux against an asset-server handler that owns long-lived buffers (1 B - 40 KB) and long-lived reply messages and serves them repeatedly without copying (fresh HttpBody / vf.Rsp per call whose data / bytes field aliases the buffer; the same long-lived vf.Rsp whose response_body-selected HttpBody or vf.Req sub-message holds it), interleaved with other transcoded requests with request bodies and replies of 0 B - 60 KB in all codecs; every reply is checked against an expectation built from an independent pristine copy, after every step every handler-owned buffer must still equal its pristine copy (canary) and at the end every long-lived reply message must equal a freshly built one; distinct there = (asset shape, codec) of assets served again intact after other traffic"
 
 // RunC04 is the unary-response-fidelity check.
 func RunC04(r *mon.Run) {
@@ -683,7 +702,13 @@ func RunC04(r *mon.Run) {
 		e *env
 	}
 	plansOf := map[string][]rp{}
-	for _, kind := range []string{"", muxCustom} {
+	// build order matters for state shared between muxes: a plain mux first,
+	// then the muxes built with CodecOption, then a second plain mux
+	for _, slot := range []string{"", muxCustom, muxReplaced, "late"} {
+		kind := slot
+		if slot == "late" {
+			kind = ""
+		}
 		envD, err := buildDynamic(dyn, kind)
 		if err != nil {
 			r.Inconclusive("harness: " + err.Error())
@@ -704,7 +729,7 @@ func RunC04(r *mon.Run) {
 			if rule.Svc != "" {
 				e = envR
 			}
-			plansOf[kind] = append(plansOf[kind], rp{p, e})
+			plansOf[slot] = append(plansOf[slot], rp{p, e})
 		}
 	}
 	plans := plansOf[""]
@@ -727,6 +752,24 @@ func RunC04(r *mon.Run) {
 	}
 	// the mux with two extra CodecOption media types: the fixed table plus
 	// headers naming the extra types, request types rotating over all six
+	// the plain muxes must not know the extra types: headers naming them fall back
+	for xi, x := range plans {
+		for i, acc := range customAccepts {
+			do(x, requestTypes[(i+xi)%len(requestTypes)], acc, nil)
+		}
+	}
+	// the mux with replaced built-in codecs, and the plain mux built after the
+	// option muxes: the fixed table with rotating request types
+	for _, slot := range []string{muxReplaced, "late"} {
+		for xi, x := range plansOf[slot] {
+			for i, acc := range append(append([][]string(nil), fixedAccepts...), customAccepts...) {
+				if !r.Thorough() && (i+xi)%2 == 1 {
+					continue
+				}
+				do(x, requestTypes[(i+xi)%len(requestTypes)], acc, acceptEncodingPool[(i+xi)%len(acceptEncodingPool)])
+			}
+		}
+	}
 	customTypes := append(append([]string(nil), requestTypes...), ctAltJSON, ctAltProto)
 	for xi, x := range plansOf[muxCustom] {
 		for i, acc := range append(append([][]string(nil), customAccepts...), fixedAccepts...) {
@@ -745,10 +788,18 @@ func RunC04(r *mon.Run) {
 	n := r.Pick(2500, 150000)
 	for k := 0; k < n; k++ {
 		kind, types := "", requestTypes
-		if k%3 == 2 {
+		switch k % 6 {
+		case 2, 5:
 			kind, types = muxCustom, customTypes
+		case 3:
+			kind = muxReplaced
+		case 4:
+			kind = "late"
 		}
 		x := plansOf[kind][g.rng.Intn(len(plansOf[kind]))]
+		if kind == "late" {
+			kind = ""
+		}
 		var acc []string
 		if g.rng.Intn(8) != 0 {
 			acc = randAccept(g.rng, kind)
